@@ -2273,6 +2273,15 @@ class Interp:
             items = self.materialize(v, s)
             if isinstance(items, list):
                 return len(items) > 0
+            for meth_ in ('__bool__', '__len__'):
+                if self.model.find_method(v.cls, meth_) is not None and self.inline_depth > 0 and len(self._inline_stack) < self.inline_depth:
+                    try:
+                        r_ = self._call_obj_method(v, meth_, [], s, 0)        # bool(obj): its __bool__, else whether its __len__ is not 0
+                    except AnalysisError:
+                        r_ = None
+                    if r_ is not None and isinstance(r_[0], (bool, int)) and '__exc' not in s.env:
+                        return bool(r_[0])
+                    break
             return None
         if isinstance(v, Obj) and isinstance(v.attrs.get('__dict'), dict):
             return bool(v.attrs['__dict'])
